@@ -16,6 +16,8 @@ import ParryModel.C08.Theorems10
 import ParryModel.C08.Theorems11
 import ParryModel.C08.Theorems12
 import ParryModel.C08.Theorems13
+import ParryModel.C08.Theorems14
+import ParryModel.C08.Theorems15
 /-!
 # C08 property theorems: the QBVH stays valid under any history
 
